@@ -1360,3 +1360,8 @@ def replay(ctx, payload):
         m = re.match(r'wide(\d+)x(\d+)$', fam)
         if m:
             check_dag(ctx, fam_wide(int(m.group(1)), int(m.group(2))), fam)
+
+
+# ---- c19src2: bytes fed to SHA-256 by the regenerated constructor (Properties/C19Hash.lean, Proofs/SrcCtorBytes.lean) ----
+SPEC['property_modules'] = list(SPEC.get('property_modules', [])) + ['C19Hash']
+SPEC['lean_targets'] = list(SPEC.get('lean_targets', [])) + ['TonVerif.Proofs.SrcCtorBytes']
